@@ -73,7 +73,10 @@ def build(expression, inject_pulses=None, autoload_pulses=False, import_path=Non
         autoload_pulses=autoload_pulses,
         import_path=import_path,
     )
-    return builder.build(expression)
+    try:
+        return builder.build(expression)
+    except RecursionError:
+        raise JaqalError("Expression is nested too deeply to build") from None
 
 
 ##
